@@ -15,6 +15,8 @@ member stops elaborating (reported as a broken obligation of C17) and nothing el
 Fixed meaning table (trusted, pinned textually where the meaning is an accessor of the library):
   static_cast<const _Derived &>(*this).coeffs()  = the coefficient vector `g` (x,y,z,w = index 0,1,2,3)
   quat()                 (SO3Base)  = `g` read as Eigen quaternion (coefficient order x y z w)      [pinned]
+  eulerAngles(i1,i2,i3)  (SO3Base)  = Eigen's `eulerAngles` of `quat().toRotationMatrix()`, nothing else: the model takes Eigen's
+                                      routine as a parameter (`Conv.eulerAngles`), so the forwarding body is                      [pinned]
   Base::log()            (SO2Base)  = `SO2.log g`   (detail/so2.hpp, tied by gen_impl)
   so2(), r2()            (SE2Base)  = `SE2.so2 g`, `SE2.r2 g`                                       [pinned]
   so3(), r3()            (SE3Base)  = `SE3.so3 g`, `SE3.r3 g`                                       [pinned]
@@ -491,6 +493,7 @@ MEMBERS = [
 # accessors / constructors whose MEANING is in the table above: their source text is pinned
 PINS = [
     ('pin_SO3_quat', 'so3.hpp', r'Eigen::Map<const Eigen::Quaternion<Scalar>> quat\(\) const'),
+    ('pin_SO3_eulerAngles', 'so3.hpp', r'Eigen::Vector3<Scalar> eulerAngles\(Eigen::Index i1 = 2, Eigen::Index i2 = 1, Eigen::Index i3 = 0\) const'),
     ('pin_SE2_so2', 'se2.hpp', r'Map<const SO2<Scalar>> so2\(\) const'),
     ('pin_SE2_r2', 'se2.hpp', r'Eigen::Map<const Eigen::Vector2<Scalar>> r2\(\) const'),
     ('pin_SE3_so3', 'se3.hpp', r'Map<const SO3<Scalar>> so3\(\) const'),
